@@ -204,7 +204,21 @@ pub fn spawn_broker<R: Responder>(wire: Wire, cfg: ServerCfg, r: R) -> BrokerHan
             // 0 = waiting header, 1 = sent Start, 2 = sent Tune, 3 = waiting Open, 4 = steady
             let mut phase = 0;
             loop {
-                // commands first
+                let pos0 = dec.pos();
+                let out = {
+                    let st = wire.lock();
+                    // feed only when bytes have arrived since the last look (an incomplete trailing
+                    // frame or an undecodable stream must not make this loop spin)
+                    if st.out.len() > fed_len && (pos0 > 0 || st.out.len() >= 8) && dec.error.is_none() {
+                        fed_len = st.out.len();
+                        Some(st.out[pos0..].to_vec())
+                    } else {
+                        None
+                    }
+                };
+                // commands run after the client's bytes were snapshotted and before they are processed: a
+                // command queued before the client wrote a frame therefore always runs before that frame
+                // is answered (a check may queue a server-initiated method and then make a client call)
                 loop {
                     let c = {
                         let mut g = ctl2.lock().unwrap();
@@ -218,18 +232,6 @@ pub fn spawn_broker<R: Responder>(wire: Wire, cfg: ServerCfg, r: R) -> BrokerHan
                         None => break,
                     }
                 }
-                let pos0 = dec.pos();
-                let out = {
-                    let st = wire.lock();
-                    // feed only when bytes have arrived since the last look (an incomplete trailing
-                    // frame or an undecodable stream must not make this loop spin)
-                    if st.out.len() > fed_len && (pos0 > 0 || st.out.len() >= 8) && dec.error.is_none() {
-                        fed_len = st.out.len();
-                        Some(st.out[pos0..].to_vec())
-                    } else {
-                        None
-                    }
-                };
                 if let Some(out) = out {
                     let frames = dec.feed_from(&out, pos0);
                     if dec.error.is_some() && !io.closing {
